@@ -135,6 +135,22 @@ impl Run {
             }
             i += 1;
         }
+        // The evidence schema fixes the level vocabulary; anything else makes the
+        // evidence file invalid, so refuse to run rather than write it.
+        const LEVELS: [&str; 6] = [
+            "exploration",
+            "fault_enumeration",
+            "model_checking",
+            "proof",
+            "translation_validation",
+            "other",
+        ];
+        if !LEVELS.contains(&level) {
+            println!(
+                "INCONCLUSIVE property={prop} reason=harness error: evidence level {level:?} is not one of {LEVELS:?}"
+            );
+            std::process::exit(2);
+        }
         let seed = std::env::var("VERIF_SEED")
             .ok()
             .and_then(|s| s.trim().parse::<u64>().ok())
@@ -277,8 +293,19 @@ impl Run {
             .insert(member.to_string());
     }
 
+    /// Extra coverage key. Keys the evidence schema gives a type to (or that
+    /// `finish` writes itself) are stored as `extra_<key>` so that an extra can
+    /// never overwrite them with a value of another shape.
     pub fn extra(&self, key: &str, v: J) {
-        self.inner.lock().unwrap().extra.insert(key.to_string(), v);
+        const RESERVED: [&str; 20] = [
+            "evaluations", "distinct_nontrivial", "rule", "samples", "states", "transitions",
+            "traces_validated_against_impl", "obligations", "discharged", "checker_cmd",
+            "trusted_base", "programs", "disagreements_checked", "explanation", "exhaustive",
+            "observed", "observed_sets", "features_excluded", "known_findings_reproduced",
+            "inconclusive",
+        ];
+        let key = if RESERVED.contains(&key) { format!("extra_{key}") } else { key.to_string() };
+        self.inner.lock().unwrap().extra.insert(key, v);
     }
 
     pub fn exhaustive(&self, b: bool) {
